@@ -61,6 +61,24 @@ def run(ctx):
         c = families.mkcase(f"MIP-{i}", {"x": x, "y": y}, impl, None, {"func": "inplace-metadata", "dtype": d, "dclass": family.dclass(d)}, rnd)
         c["lazy_subsets"] = [{"names": ["x", "y"]}, {"names": ["x", "y"], "sigs": {"x": [None] * r, "y": [None] * (r + 1)}}, {"names": ["x"]}]
         cases.append(c)
+    # slices with bounds far outside the axis and any step sign: whatever such an index selects, the static
+    # shape / declared dims must be what the model produces (values are not judged here)
+    for i in range(80 * scale):
+        d = rnd.choice(["int64", "float32", "nint32"])
+        r = rnd.randint(1, 2)
+        sh = [rnd.choice([1, 2, 3, 5]) for _ in range(r)]
+        x = ops.tensor(rnd, d, sh, "small")
+        items = []
+        for n_ in sh:
+            st = rnd.choice([None, 1, 2, -1, -2, -3])
+            big = [None, 0, 1, -1, n_, -n_, n_ + 1, -n_ - 1, -n_ - 2, 100, -100]
+            items.append(f"slice({rnd.choice(big)}, {rnd.choice(big)}, {st})" if rnd.random() < 0.85 else str(rnd.randint(-n_, n_ - 1)))
+        if rnd.random() < 0.25:
+            items.insert(rnd.randint(0, len(items)), "None")
+        c = families.mkcase(f"MOOB-{i}", {"x": x}, f"out = x[({', '.join(items)},)]", None, {"func": "getitem-wide-bounds", "dtype": d, "dclass": family.dclass(d)}, rnd)
+        c["lazy_subsets"] = [{"names": ["x"]}, {"names": ["x"], "sigs": {"x": [None] * r}}]
+        c["static_only"] = True
+        cases.append(c)
     family.evaluate(ctx, cases, want=("static", "oracle", "traced"))
     ctx.sample({"impl": cases[0]["impl"], "signatures": [s.get("sigs", "static") for s in cases[0]["lazy_subsets"]]})
     ctx.sample({"impl": cases[-1]["impl"], "inputs": {k: v["shape"] for k, v in cases[-1]["inputs"].items()}})
